@@ -130,8 +130,12 @@ def gen(
             else getfile(get_module(imports_from_file, extra_symbols=extra_symbols)),
             "rt",
         ) as f:
-            imports = "".join(
-                map(to_code, get_at_root(ast.parse(f.read()), (Import, ImportFrom)))
+            # One import per line: `ast.unparse` does not end what it renders with a newline
+            imports = "\n".join(
+                map(
+                    lambda node: to_code(node).rstrip("\n"),
+                    get_at_root(ast.parse(f.read()), (Import, ImportFrom)),
+                )
             )
 
     module_path, _, symbol_name = input_mapping.rpartition(".")
